@@ -112,6 +112,7 @@ class Sim:
                 break
         self.count("sweeps")
         self.user.setdefault("sweeps", {})[op["i"]] = rows
+        return rows
 
     def _sweep_child(self, op, k):
         self.in_sweep = True
@@ -146,9 +147,10 @@ class Sim:
 
     # ------------------------------------------------------------------ one step
     def execute(self, op):
+        sweep_rows = None
         if op.get("sweep") and not self.in_sweep:
             try:
-                self.run_sweep(op)
+                sweep_rows = self.run_sweep(op)
             except StopRun:
                 # the op belongs to the recorded history although it never ran in this process
                 self.ops.append(op)
@@ -213,6 +215,19 @@ class Sim:
         else:
             ofp = None
         self.log.append([i, op["k"], op.get("f"), out[0], ofp])
+        if sweep_rows and op.get("sweep") == "retry":
+            # read-only op: whatever line the interrupt hit, the same call issued again must answer
+            # what the undisturbed call answers
+            for k, where, _dg, answers in sweep_rows:
+                self.oracle_checks += 1
+                if answers and list(answers[0]) != [out[0], ofp]:
+                    self.violation(
+                        self.prop + ".retry_after_interrupt",
+                        {"op": op["k"][:48]},
+                        i,
+                        "after KeyboardInterrupt at line event %d (%s) of %s the same call answers %r, undisturbed it answers %r" % (k, where, op["k"], answers[0], [out[0], ofp]),
+                    )
+                    break
         self.count("op:" + op["k"])
         self.count("st:" + out[0])
         try:
